@@ -1,0 +1,28 @@
+//go:build verif
+// +build verif
+
+package sourcemap
+
+import "github.com/evanw/esbuild/internal/ast"
+
+// Thin wrappers (no logic) used by the verification harness in /verif.
+
+func VerifEncodeVLQ(encoded []byte, value int) []byte { return encodeVLQ(encoded, value) }
+
+func VerifAppendMappingToBuffer(buffer []byte, lastByte byte, prevState SourceMapState, currentState SourceMapState, omitSource bool) ([]byte, ast.Index32) {
+	return appendMappingToBuffer(buffer, lastByte, prevState, currentState, omitSource)
+}
+
+type VerifLineOffsetTable struct {
+	ColumnsForNonASCII        []int32
+	ByteOffsetToFirstNonASCII int32
+	ByteOffsetToStartOfLine   int32
+}
+
+func VerifDumpLineOffsetTables(tables []LineOffsetTable) []VerifLineOffsetTable {
+	out := make([]VerifLineOffsetTable, len(tables))
+	for i, t := range tables {
+		out[i] = VerifLineOffsetTable{t.columnsForNonASCII, t.byteOffsetToFirstNonASCII, t.byteOffsetToStartOfLine}
+	}
+	return out
+}
